@@ -45,10 +45,10 @@ Proof. exact (@wrun_free_leaf). Qed.
     SDP, and any dual certificate (C01: identity, signs, PSD multipliers) bounds the objective. *)
 Theorem C09_real_valuation_bounded :
   forall (E : ips) (rho : nat -> E) (phi : nat -> R)
-         (np : nat) (obj : edict) (tracked : sent) (duals : list Cvxpy.dval) (res : list (list Q)) (tau : R),
-    length duals = length tracked ->
-    certificate_identity obj (combine tracked duals) res tau ->
-    dual_feasible (combine tracked duals) ->
+         (np : nat) (obj : edict) (tracked : sent) (duals : list Cvxpy.dval) (entries : list (option (list (list Q)))) (res : list (list Q)) (tau : R),
+    length duals = length tracked -> length entries = length tracked ->
+    certificate_identity obj (combine (combine tracked duals) entries) res tau ->
+    dual_feasible (combine (combine tracked duals) entries) ->
     rank1sum res np ->
     Forall (item_holds_at rho phi) tracked ->
     evalE rho phi obj <= tau.
@@ -60,11 +60,11 @@ Proof. exact (@real_valuation_bounded). Qed.
 Theorem C09_performance_bounded :
   forall (E : ips) (rho : nat -> E) (phi : nat -> R) (o np : nat)
          (metrics : list (item * edict)) (others : sent)
-         (duals : list Cvxpy.dval) (res : list (list Q)) (tau t : R),
+         (duals : list Cvxpy.dval) (entries : list (option (list (list Q)))) (res : list (list Q)) (tau t : R),
     let tracked := map fst metrics ++ others in
-    length duals = length tracked ->
-    certificate_identity [(KF o, 1%Q)] (combine tracked duals) res tau ->
-    dual_feasible (combine tracked duals) ->
+    length duals = length tracked -> length entries = length tracked ->
+    certificate_identity [(KF o, 1%Q)] (combine (combine tracked duals) entries) res tau ->
+    dual_feasible (combine (combine tracked duals) entries) ->
     rank1sum res np ->
     Forall (fun im => is_metric_row rho o (fst im) (snd im)) metrics ->
     Forall (fun it => item_mentions o it = false) others ->
